@@ -352,6 +352,7 @@ fn gen_script(r: &mut Rng, idx: usize) -> Script {
                 1 => vec![("__namespace__".to_string(), "n1".to_string())],
                 _ => vec![("__tenant_idx__".to_string(), victim.to_string()), ("__namespace__".to_string(), "vault".to_string()), ("color".to_string(), "evil".to_string())],
             };
+            calls.push(Call { who: Who::T(a), op: Op::BulkQuery(vec![1, 2, 3, 4, 5, 6, 7, 8, 4294967295], true, String::new()), exact: true });
             calls.push(Call { who: Who::T(a), op: Op::Update(doc, m, merge, String::new()), exact: true });
             calls.push(Call { who: Who::T(a), op: Op::BulkQuery(vec![1, 2, 3, 4, 5, 6, 7, 8, 4294967295], true, String::new()), exact: true });
             calls.push(Call { who: Who::T(victim), op: Op::BulkQuery(vec![1, 2, 3, 4, 5, 6, 7, 8, 4294967295], true, String::new()), exact: true });
@@ -1176,6 +1177,19 @@ fn evaluate(id: usize, sc: &Script, a: usize, b: usize, tag: &str) -> Result<Out
             (Op::Search(sq), Obs::Search(out)) => {
                 if let Some(why) = containment(sq, out, full.get(i + 1).unwrap_or(&Obs::Existed(false))) {
                     failures.push(case(format!("Search containment: {}", why), i));
+                }
+            }
+            (Op::Update(_, m, _, _), _) if m.iter().any(|(k, _)| reserved(k)) && i >= 1 && i + 1 < full.len() => {
+                // server-owned keys are not settable: an UpdateMetadata carrying them, framed by two censuses of
+                // the SAME tenant over the same ids, must not change which of its documents that tenant sees
+                let same = |x: &Call, y: &Call| x.who == y.who && matches!((&x.op, &y.op), (Op::BulkQuery(a, _, na), Op::BulkQuery(b, _, nb)) if a == b && na == nb);
+                if sc.calls[i - 1].who == c.who && same(&sc.calls[i - 1], &sc.calls[i + 1]) {
+                    if let (Obs::BulkQuery(before, _, _), Obs::BulkQuery(after, _, _)) = (&full[i - 1], &full[i + 1]) {
+                        let f = |rows: &Vec<_>| -> Vec<(u64, bool)> { rows.iter().map(|r: &kvh_srv::QueryOut| (r.doc_id, r.found)).collect() };
+                        if f(before) != f(after) {
+                            failures.push(case(format!("UpdateMetadata carrying server-owned keys {:?} changed which documents its own caller sees: before {:?}, after {:?}", m, f(before), f(after)), i));
+                        }
+                    }
                 }
             }
             (Op::BulkSearch(sqs), Obs::BulkSearch(outs)) => {
